@@ -253,6 +253,24 @@ type sut struct {
 	norec bool // long runs: inputs are looked at once, not kept
 }
 
+// nestedKeys: caller keys that look like the cache's own storage keys - the name of one key is the
+// cache's prefix (once, twice) followed by the name of another.  They are different keys.
+func nestedKeys(pfx string) func(int) string {
+	if pfx == "" {
+		pfx = "ttl:"
+	}
+	return func(k int) string { return strings.Repeat(pfx, (k+2)%3) + strconv.Itoa((k - 1) / 3) }
+}
+
+// newSutP: a redis-backed cache with prefix pfx; every fourth gets nested key names
+func newSutP(c cache.TTLCache, scheme int, lazy bool, pfx string, sel int) *sut {
+	s := newSut(c, scheme, lazy)
+	if sel%4 == 2 {
+		s.key = nestedKeys(pfx)
+	}
+	return s
+}
+
 func newSut(c cache.TTLCache, scheme int, lazy bool) *sut {
 	return &sut{c: c, key: keyScheme(scheme), lazy: lazy, ttlo: map[int]cache.SetOptFn{},
 		nx: cache.WithMustNotExist(), keep: cache.WithKeepTTL()}
@@ -1501,7 +1519,7 @@ func runBoth(w *tr.W, src string, size, dttl, nk, now, idx int, acts []act) {
 	out := &sink{w: w, lazy: lazy}
 	pfx := prefixes[idx%len(prefixes)]
 	m := newSut(cache.NewTTLMemCache(size, int64(dttl)), idx, lazy)
-	r := newSut(cache.NewTTLRdsCache(fr, "ttl:"+pfx, int64(dttl)), idx+1, lazy)
+	r := newSutP(cache.NewTTLRdsCache(fr, "ttl:"+pfx, int64(dttl)), idx+1, lazy, "ttl:"+pfx, idx/2)
 	m.own, r.own = 1, 2
 	foreign := seedServer(fr, nk)
 	var dc *decoy
@@ -1561,7 +1579,7 @@ func runRds(w *tr.W, src string, dttl, nk, now, idx int, acts []act) {
 		foreign = seedServer(fr, nk)
 		dc = &decoy{s: newSut(cache.NewTTLRdsCache(fr, "dcy:", 3), idx, false), rng: rand.New(rand.NewSource(int64(idx)*15485863 + int64(now))), nk: nk}
 	}
-	s := newSut(cache.NewTTLRdsCache(fr, pfx, int64(dttl)), idx, lazy)
+	s := newSutP(cache.NewTTLRdsCache(fr, pfx, int64(dttl)), idx, lazy, pfx, idx/3)
 	s.scr = make([]byte, 0, 16)
 	s.own = 2
 	w.Emit(tr.E{"ev": "reset", "size": nk + 5, "dttl": clampI(dttl), "nk": nk, "now": now, "threads": 1,
